@@ -119,9 +119,9 @@ def run_harnesses(harnesses, timeout_s=600, jobs=8, extra_args=()):
             st = c.get("cbmc_stats") or {}
             h = c.get("harness_id")
             if h in res:
-                res[h]["solver_s"] = st.get("runtime_decision_procedure_s", 0.0)
-                res[h]["symex_s"] = st.get("runtime_symex_s", 0.0)
-                solver_s += st.get("runtime_decision_procedure_s", 0.0)
+                res[h]["solver_s"] = st.get("runtime_decision_procedure_s") or 0.0
+                res[h]["symex_s"] = st.get("runtime_symex_s") or 0.0
+                solver_s += st.get("runtime_decision_procedure_s") or 0.0
         for e in d.get("error_details", []):
             h = e.get("harness_id")
             if h in res and e.get("exit_status") == "timeout":
